@@ -61,6 +61,47 @@ def none_discriminant(body, local, defs, depth=0):
     return None
 
 
+def carried_none_discriminant(body, local, defs, loop_blocks):
+    """A loop-carried Option (`while let Some(x) = cur { …; cur = it.next().map(..) }`): every definition of
+    `local` inside the loop derives from an Iterator::next result and every definition outside is a `Some(..)`:
+    then the None discriminant at the loop's test means the iterator was exhausted."""
+    ds = defs.whole_defs(local)
+    inside = [d for d in ds if d[1] in loop_blocks]
+    outside = [d for d in ds if d[1] not in loop_blocks]
+    if not inside:
+        return None
+    for d in outside:
+        rv = d[3].get("rv") if d[0] == "assign" else None
+        if not (rv and rv["k"] == "aggregate" and rv.get("agg") == "adt" and rv.get("adt") == "core::option::Option" and rv.get("variant") == 1):
+            return None
+    res = None
+    for d in inside:
+        if d[0] == "call":
+            t = d[3]
+            name = (t["callee"] or {}).get("name")
+            if name == "next":
+                nd = 0
+            elif name in NONE_CHAIN and t["args"] and t["args"][0]["k"] in ("copy", "move"):
+                inner = none_discriminant(body, t["args"][0]["place"]["l"], defs)
+                if inner is None:
+                    return None
+                nd = inner if NONE_CHAIN[name] is None else NONE_CHAIN[name]
+            else:
+                return None
+        else:
+            rv = d[3]["rv"]
+            if rv["k"] == "use" and rv["op"]["k"] in ("copy", "move") and not rv["op"]["place"]["p"]:
+                nd = none_discriminant(body, rv["op"]["place"]["l"], defs)
+                if nd is None:
+                    return None
+            else:
+                return None
+        if res is not None and res != nd:
+            return None
+        res = nd
+    return res
+
+
 def exhaustion_exits(body, loop_blocks):
     """Edges leaving the loop that are taken exactly when an Iterator::next result was None (directly,
     or after ok_or/`?`, which turn None into Err / Break)."""
@@ -74,6 +115,8 @@ def exhaustion_exits(body, loop_blocks):
         # discriminant(x) where x is the result of *::next
         if org[0] == "op" and org[1]["k"] == "discriminant":
             nd = none_discriminant(body, org[1]["place"]["l"], defs)
+            if nd is None:
+                nd = carried_none_discriminant(body, org[1]["place"]["l"], defs, set(loop_blocks))
             if nd is None:
                 continue
             tgt = None
